@@ -22,7 +22,7 @@ func coreC01(tier string) []RunSpec {
 	return out
 }
 
-var mwKinds = []string{"fund", "swap", "melt", "resolve", "replay", "dup", "race", "checkstate", "restore", "restart", "clock", "adversarial", "internal", "rotate"}
+var mwKinds = []string{"fund", "swap", "melt", "resolve", "replay", "dup", "race", "checkstate", "restore", "restart", "clock", "adversarial", "internal", "rotate", "mintrace"}
 
 func mwKind(k string) int {
 	for i, x := range mwKinds {
@@ -63,6 +63,8 @@ func (m *MW) Step(kind int, allowRotate bool) {
 		m.StepInternal()
 	case "rotate":
 		m.StepRotateRuntime()
+	case "mintrace":
+		m.StepMintRace()
 	}
 }
 
